@@ -873,6 +873,9 @@ End Walk.
 Lemma next_tick_le start t : start <= t -> next_tick start t <= t + 100.
 Proof. unfold next_tick, connTimeout. intros H. lia. Qed.
 
+Lemma next_tick_gt start t : start <= t -> t < next_tick start t.
+Proof. unfold next_tick, connTimeout. intros H. lia. Qed.
+
 (* what begin_end needs of a state *)
 Definition TB (a : N) (s : gw_state) : Prop :=
   gw_ended s = false /\ gw_now s = a /\ gw_last_sn s <= a /\ gw_last_mq s <= a.
@@ -889,11 +892,12 @@ Lemma begin_end_spec a s c x y :
   TB a s ->
   gw_ended (fst (begin_end s c x y)) = false /\ gw_now (fst (begin_end s c x y)) = a /\
   gw_connect (fst (begin_end s c x y)) = gw_connect s /\ gw_st (fst (begin_end s c x y)) = gw_st s /\
-  exists te, gw_ending (fst (begin_end s c x y)) = Some te /\ te <= a + 100.
+  exists te, gw_ending (fst (begin_end s c x y)) = Some te /\ a <= te <= a + 100.
 Proof.
   intros (H1 & H2 & H3 & H4). unfold begin_end. cbn. repeat split; try assumption.
   eexists. split; [reflexivity|]. rewrite H2.
   pose proof (next_tick_le (gw_last_sn s) a H3). pose proof (next_tick_le (gw_last_mq s) a H4).
+  pose proof (next_tick_gt (gw_last_sn s) a H3). pose proof (next_tick_gt (gw_last_mq s) a H4).
   destruct x, y; lia.
 Qed.
 
@@ -1020,11 +1024,10 @@ Proof.
   - inversion Hf. reflexivity.
 Qed.
 
-Lemma fire_end_tb cfg a s k S o c : fire cfg s k = (S, o, HEnd c) -> TB a s -> TB a S /\ gw_connect S = None \/ False.
+Lemma fire_end_tb cfg a s k S o c : fire cfg s k = (S, o, HEnd c) -> TB a s -> TB a S.
 Proof.
   unfold fire. intros Hf Hb. destruct k as [g|g|g|p|p].
-  - destruct (gw_objs s !! g); inversion Hf; subst. left. split; [apply finish_obj_tb, Hb|].
-    admit.
+  - destruct (gw_objs s !! g); inversion Hf; subst. apply finish_obj_tb, Hb.
   - destruct (gw_objs s !! g); inversion Hf.
   - destruct (gw_objs s !! g) as [t|]; [|inversion Hf].
     destruct t as [| | |mid qos st data snpub n]; try (inversion Hf; fail).
@@ -1034,4 +1037,154 @@ Proof.
     + inversion Hf.
   - inversion Hf.
   - inversion Hf.
-Admitted.
+Qed.
+
+(* ================================================================== one timer, all due timers *)
+
+Definition mq_allowed (cfg : gw_cfg) (L : N) (U : option N) : N :=
+  N.max (match U with Some u => u | None => 0 end) (L + (retry_count cfg + 1) * retry_delay cfg).
+Definition mq_bound (cfg : gw_cfg) (PF : Prop) (L : N) (U : option N) (o : list gw_out) : Prop :=
+  PF -> forall tau m, In (OutMq tau m) o -> tau <= mq_allowed cfg L U.
+Definition no_end (o : list gw_out) : Prop := forall te, ~ In (OutEnd te) o.
+
+Lemma mq_bound_app cfg PF L U a b : mq_bound cfg PF L U a -> mq_bound cfg PF L U b -> mq_bound cfg PF L U (a ++ b).
+Proof. intros Ha Hb HP tau m Hin. apply in_app_or in Hin. destruct Hin; [eapply Ha|eapply Hb]; eassumption. Qed.
+Lemma no_end_app a b : no_end a -> no_end b -> no_end (a ++ b).
+Proof. intros Ha Hb te Hin. apply in_app_or in Hin. destruct Hin; [eapply Ha|eapply Hb]; eassumption. Qed.
+
+Lemma begin_end_quiet cfg PF L U s c x y : mq_bound cfg PF L U (snd (begin_end s c x y)) /\ no_end (snd (begin_end s c x y)).
+Proof.
+  split.
+  - intros _ tau m Hin. apply begin_end_outs in Hin. destruct Hin as [(t & e & E)|(t & dg & E)]; discriminate E.
+  - intros te Hin. apply begin_end_outs in Hin. destruct Hin as [(t & e & E)|(t & dg & E)]; discriminate E.
+Qed.
+
+Lemma fire_step cfg PF B L U t0 s tm :
+  TI cfg PF B L U t0 s -> min_timer (gw_timers s) = Some tm ->
+  mq_bound cfg PF L U (outs_of (fire cfg (pre s tm) (tm_kind tm))) /\
+  no_end (outs_of (fire cfg (pre s tm) (tm_kind tm))) /\
+  match fire cfg (pre s tm) (tm_kind tm) with
+  | (S, o, HOk) => TI cfg PF B L U (tm_at tm) S /\ gw_connect S = gw_connect s
+  | (S, o, HEnd c) => TB (tm_at tm) S
+  end.
+Proof.
+  intros H Hm. apply min_timer_spec in Hm. destruct Hm as [Hin Hmin].
+  pose proof (ti_tm _ _ _ _ _ _ _ H tm Hin) as [Hge _].
+  assert (Hrm : forall u, In u (gw_timers s) -> u <> tm -> In u (gw_timers (pre s tm))).
+  { intros u Hu Hne. cbn. unfold remove_timer. apply filter_In. split; [exact Hu|].
+    apply negb_true_iff. apply N.eqb_neq. intros E. apply Hne.
+    eapply (NoDup_map_inj tm_seq); [apply H|exact Hu|exact Hin|exact E]. }
+  split; [|split].
+  - intros HP tau m Ho. apply fire_outs in Ho. destruct Ho as [(t & dg & E)|(m' & E & Hc)]; [discriminate E|].
+    inversion E; subst tau m'. cbn [pre gw_now]. change (gw_now (pre s tm)) with (tm_at tm). unfold mq_allowed.
+    destruct Hc as [(p & Hk)|(g & mid & q & st & ak & m0 & sn & n & Hk & Hobj & Hn)].
+    + destruct (ti_ping _ _ _ _ _ _ _ H HP tm p Hin Hk) as (u & tc & -> & A2 & A3 & A4).
+      specialize (Hmin tc A2). lia.
+    + change (gw_objs (pre s tm)) with (gw_objs s) in Hobj.
+      pose proof (ti_retry _ _ _ _ _ _ _ H tm g mid q st ak m0 sn n Hin Hk Hobj). nia.
+  - intros te Ho. apply fire_outs in Ho. destruct Ho as [(t & dg & E)|(m' & E & _)]; discriminate E.
+  - assert (Hb : TB (tm_at tm) (pre s tm)).
+    { destruct H. repeat split; cbn; try assumption; lia. }
+    destruct (fire cfg (pre s tm) (tm_kind tm)) as [[S o] [|c]] eqn:Hf; [|eapply fire_end_tb; eassumption].
+    destruct (tm_kind tm) as [g|g|g|p|p] eqn:Hk.
+    + (* a stale connect timer *)
+      unfold fire in Hf. change (gw_objs (pre s tm)) with (gw_objs s) in Hf.
+      destruct (gw_objs s !! g) eqn:Hobj; inversion Hf; subst. split; [|reflexivity].
+      apply TI_pre; try assumption.
+      * intros g0 Hg0 E. rewrite Hk in E. inversion E; subst g0.
+        destruct (ti_conn _ _ _ _ _ _ _ H g Hg0) as (_ & (mq & a & A) & _). congruence.
+      * intros p. rewrite Hk. discriminate.
+    + assert (H0 : TI cfg PF B L U (tm_at tm) (pre s tm)).
+      { apply TI_pre; try assumption; [intros g0 _|intros p]; rewrite Hk; discriminate. }
+      destruct (ti_timed _ _ _ _ _ _ _ H tm g Hin Hk) as (_ & _ & A3).
+      split.
+      * pose proof (fire_pt cfg PF B L U (tm_at tm) (pre s tm) (TmTimed g) H0) as HP. rewrite Hf in HP. apply HP.
+        -- intros g0 mid q st ak m sn n E. discriminate E.
+        -- intros _ p E. discriminate E.
+      * apply (fire_connect cfg _ _ _ _ Hf). intros g0 E. inversion E; subst g0. exact A3.
+    + assert (H0 : TI cfg PF B L U (tm_at tm) (pre s tm)).
+      { apply TI_pre; try assumption; [intros g0 _|intros p]; rewrite Hk; discriminate. }
+      split.
+      * pose proof (fire_pt cfg PF B L U (tm_at tm) (pre s tm) (TmRetry g) H0) as HP. rewrite Hf in HP. apply HP.
+        -- intros g0 mid q st ak m sn n E Hobj. inversion E; subst g0.
+           apply (ti_retry _ _ _ _ _ _ _ H tm g mid q st ak m sn n Hin Hk Hobj).
+        -- intros _ p E. discriminate E.
+      * apply (fire_connect cfg _ _ _ _ Hf). intros g0 E. discriminate E.
+    + assert (H0 : TI cfg PF B L U (tm_at tm) (pre s tm)).
+      { apply TI_pre; try assumption; [intros g0 _|intros p0]; rewrite Hk; discriminate. }
+      split.
+      * pose proof (fire_pt cfg PF B L U (tm_at tm) (pre s tm) (TmPing p) H0) as HP. rewrite Hf in HP. apply HP.
+        -- intros g0 mid q st ak m sn n E. discriminate E.
+        -- intros HPF p0 E. inversion E; subst p0.
+           destruct (ti_ping _ _ _ _ _ _ _ H HPF tm p Hin Hk) as (u & tc & A1 & A2 & A3 & A4).
+           exists u, tc. split; [exact A1|]. split; [|split; assumption].
+           apply Hrm; [exact A2|]. intros ->. rewrite Hk in A3. discriminate A3.
+      * apply (fire_connect cfg _ _ _ _ Hf). intros g0 E. discriminate E.
+    + unfold fire in Hf. inversion Hf; subst S o. split; [|reflexivity].
+      pose proof (TI_pre_gen cfg PF B L U t0 s tm
+                    (fun t => match tm_kind t with TmPing p' => negb (p =? p') | _ => true end) H Hin Hmin) as HT.
+      apply HT.
+      * intros g Hg. split; [rewrite Hk; discriminate|]. intros u Hu. rewrite Hu. reflexivity.
+      * intros _ u p0 tc Hu Hf2 Hku Htc Hkc. rewrite Hku in Hf2. rewrite Hkc. split; [|reflexivity].
+        intros ->. rewrite Hk in Hkc. inversion Hkc; subst p0. rewrite N.eqb_refl in Hf2. discriminate Hf2.
+Qed.
+
+(* outcome of firing all timers due up to t *)
+Definition RT (cfg : gw_cfg) (PF : Prop) (B L : N) (U : option N) (s : gw_state) (t : N)
+           (s' : gw_state) (o : list gw_out) : Prop :=
+  gw_now s <= gw_now s' /\ gw_now s' <= t /\ mq_bound cfg PF L U o /\
+  ( (gw_ended s' = true /\ exists te, In (OutEnd te) o /\ te <= t /\ (gw_connect s <> None -> te <= B))
+  \/ (no_end o /\ gw_ended s' = false /\ exists te, gw_ending s' = Some te /\ te <= gw_now s' + 100 /\
+        (gw_connect s <> None -> te <= B))
+  \/ (no_end o /\ TI cfg PF B L U (gw_now s') s' /\ (gw_connect s <> None -> gw_connect s' <> None)) ).
+
+Lemma mq_bound_nil cfg PF L U : mq_bound cfg PF L U [].
+Proof. intros _ tau m []. Qed.
+Lemma no_end_nil : no_end [].
+Proof. intros te []. Qed.
+
+Lemma run_timers_spec cfg PF B L U t fuel : forall s t0,
+  TI cfg PF B L U t0 s -> t0 <= t ->
+  RT cfg PF B L U s t (fst (run_timers fuel cfg s t)) (snd (run_timers fuel cfg s t)).
+Proof.
+  induction fuel as [|fuel IH]; intros s t0 H Ht; pose proof (ti_now _ _ _ _ _ _ _ H) as Hnow.
+  { cbn. unfold RT. rewrite Hnow. split; [lia|]. split; [exact Ht|]. split; [apply mq_bound_nil|].
+    right. right. split; [apply no_end_nil|]. split; [exact H|auto]. }
+  assert (Hstay : RT cfg PF B L U s t s []).
+  { unfold RT. rewrite Hnow. split; [lia|]. split; [exact Ht|]. split; [apply mq_bound_nil|].
+    right. right. split; [apply no_end_nil|]. split; [exact H|auto]. }
+  cbn [run_timers]. rewrite (ti_ending _ _ _ _ _ _ _ H).
+  destruct (min_timer (gw_timers s)) as [tm|] eqn:Hm; [|exact Hstay].
+  destruct (tm_at tm <=? t) eqn:Hdue; [|exact Hstay]. apply N.leb_le in Hdue.
+  pose proof (fire_step cfg PF B L U t0 s tm H Hm) as (Hmq & Hne & Hres).
+  pose proof (min_timer_spec _ _ Hm) as [Hin Hmin].
+  pose proof (ti_tm _ _ _ _ _ _ _ H tm Hin) as [Hge _].
+  change (s <| gw_now := tm_at tm |> <| gw_timers := remove_timer (gw_timers s) tm |>) with (pre s tm).
+  destruct (fire cfg (pre s tm) (tm_kind tm)) as [[S o] [|c]]; cbn [finish_r outs_of fst snd] in *.
+  - destruct Hres as [HS Hc].
+    specialize (IH S (tm_at tm) HS Hdue). pose proof (ti_now _ _ _ _ _ _ _ HS) as HnowS.
+    destruct (run_timers fuel cfg S t) as [s2 o2]. cbn [fst snd] in *.
+    destruct IH as (I1 & I2 & I3 & I4). unfold RT. split; [lia|]. split; [exact I2|].
+    split; [apply mq_bound_app; assumption|]. rewrite Hc in I4.
+    destruct I4 as [(E1 & te & E2 & E3 & E4)|[(E0 & E1 & te & E2 & E3 & E4)|(E0 & E1 & E2)]].
+    + left. split; [exact E1|]. exists te. split; [apply in_or_app; right; exact E2|]. split; assumption.
+    + right. left. split; [apply no_end_app; assumption|]. split; [exact E1|]. exists te. repeat split; assumption.
+    + right. right. split; [apply no_end_app; assumption|]. split; assumption.
+  - destruct (begin_end_spec (tm_at tm) S c false false Hres) as (B1 & B2 & B3 & B4 & te & B5 & B6).
+    destruct (begin_end_quiet cfg PF L U S c false false) as [Q1 Q2].
+    destruct (begin_end S c false false) as [s1 o1]. cbn [fst snd] in *.
+    assert (HteB : gw_connect s <> None -> te <= B).
+    { intros Hcn. destruct (gw_connect s) as [g|] eqn:Hg; [|congruence].
+      destruct (ti_conn _ _ _ _ _ _ _ H g Hg) as (_ & _ & tmc & C1 & C2 & C3). specialize (Hmin tmc C1). lia. }
+    destruct fuel as [|fuel'].
+    + cbn [run_timers fst snd]. rewrite app_nil_r. unfold RT. split; [lia|]. split; [lia|].
+      split; [apply mq_bound_app; assumption|]. right. left. split; [apply no_end_app; assumption|].
+      split; [exact B1|]. exists te. split; [exact B5|]. split; [lia|exact HteB].
+    + cbn [run_timers]. rewrite B5. destruct (te <=? t) eqn:Hte.
+      * apply N.leb_le in Hte. cbn [fst snd]. unfold RT. cbn. split; [lia|]. split; [exact Hte|].
+        split; [apply mq_bound_app; [apply mq_bound_app; assumption|apply mq_bound_nil]|].
+        left. split; [reflexivity|]. exists te. split; [apply in_or_app; right; left; reflexivity|]. split; assumption.
+      * cbn [fst snd]. rewrite app_nil_r. unfold RT. split; [lia|]. split; [lia|].
+        split; [apply mq_bound_app; assumption|]. right. left. split; [apply no_end_app; assumption|].
+        split; [exact B1|]. exists te. split; [exact B5|]. split; [lia|exact HteB].
+Qed.
